@@ -935,4 +935,10 @@ def GExpr.scoped (locals : List String) : GExpr → Bool
 def GMethod.scoped (m : GMethod) : Bool :=
   m.arms.all fun a => allDistinct a.binders && a.body.scoped (a.binders ++ [m.param])
 
+/-- hygiene against the package the impl is expanded in: `EPath` of one identifier resolves to a local, else to a
+    top-level definition of the CURRENT PACKAGE (`tops`), else to a builtin (`name_resolution.rs::resolve_expr`) —
+    so a function of the package spelled like a helper takes the generated call -/
+def GMethod.hygienic (tops : List String) (m : GMethod) : Bool :=
+  m.arms.all fun a => a.body.scoped (a.binders ++ ([m.param] ++ tops))
+
 end Goml.Derive
